@@ -854,6 +854,39 @@ fn put_varint(out: &mut Vec<u8>, mut v: u64) {
 /// file: the filter block (whose handle is the value of the metaindex block's one entry) or, with
 /// `to_metaindex`, the metaindex block. The block read through the redirected handle passes its
 /// checksum - it is just not an index.
+/// As `redirect_index_handle`, the target being the table's first data block (the handle in the
+/// first entry of the index block): a block of internal keys, like an index, but its values are
+/// user values.
+fn redirect_index_handle_to_first_data_block(table: &[u8]) -> Option<Vec<u8>> {
+    let len = table.len();
+    if len < 48 {
+        return None;
+    }
+    let footer = &table[len - 48..];
+    let mut at = 0usize;
+    let (meta_off, meta_size) = (get_varint(footer, &mut at)?, get_varint(footer, &mut at)?);
+    let (idx_off, idx_size) = (get_varint(footer, &mut at)? as usize, get_varint(footer, &mut at)? as usize);
+    let block = table.get(idx_off..idx_off + idx_size)?;
+    let mut p = 0usize;
+    let (_shared, non_shared, value_len) = (get_varint(block, &mut p)?, get_varint(block, &mut p)? as usize, get_varint(block, &mut p)? as usize);
+    let value = block.get(p + non_shared..p + non_shared + value_len)?;
+    let mut q = 0usize;
+    let target = (get_varint(value, &mut q)?, get_varint(value, &mut q)?);
+    let mut new_footer = vec![];
+    put_varint(&mut new_footer, meta_off);
+    put_varint(&mut new_footer, meta_size);
+    put_varint(&mut new_footer, target.0);
+    put_varint(&mut new_footer, target.1);
+    if new_footer.len() > 40 {
+        return None;
+    }
+    new_footer.resize(40, 0);
+    new_footer.extend_from_slice(&footer[40..]);
+    let mut out = table[..len - 48].to_vec();
+    out.extend_from_slice(&new_footer);
+    Some(out)
+}
+
 fn redirect_index_handle(table: &[u8], to_metaindex: bool) -> Option<Vec<u8>> {
     let len = table.len();
     if len < 48 {
@@ -1057,6 +1090,9 @@ pub fn run_case(tier: &str, seed: u64, idx: u64) -> CaseOut {
         // the index handle of the footer redirected to another intact block of the same file (its
         // filter block, its metaindex block): the checksum of what is read is fine
         if class == PathClass::Table && (slice == 5 || thorough) {
+            if let Some(redirected) = redirect_index_handle_to_first_data_block(&base.image.files[path]) {
+                mutations.push((len - 48, "index handle redirected to the first data block".to_string(), Box::new(move |b: &mut Vec<u8>| *b = redirected.clone())));
+            }
             for to_metaindex in [false, true] {
                 if let Some(redirected) = redirect_index_handle(&base.image.files[path], to_metaindex) {
                     let what = if to_metaindex { "index handle redirected to the metaindex block" } else { "index handle redirected to the filter block" };
@@ -1104,6 +1140,9 @@ pub fn run_case(tier: &str, seed: u64, idx: u64) -> CaseOut {
             let mut structure = structure_at(&base, path, offset);
             if what.starts_with("record of ") {
                 structure = "log-record-duplicated";
+            }
+            if what.starts_with("index handle redirected") {
+                structure = "footer-handle-redirected";
             }
             if let Some(run) = what.split(" run of ").nth(1).and_then(|n| n.parse::<usize>().ok()) {
                 // a run is named after the most consequential field it covers: a fragment header's
